@@ -218,11 +218,14 @@ def check_op(sc, obs, opi, add):
     if full and has_exit and not keep_alive_pool:
         ex = o.get('exit_results') or []
         got = collections.Counter(tuple(x) if isinstance(x, list) else x for x in ex)
-        want = collections.Counter(('exit', tok, sum(1 for c in cs if c[1] == 'task' and c[7] is not None))
-                                   for tok, cs in by_inst.items() if any(c[1] == 'exit' and c[7] is not None for c in cs))
+        def _exit_value(tok, cs):
+            if op.get('exit_none') == 'all' or (op.get('exit_none') == 'even' and isinstance(tok, int) and tok % 2 == 0):
+                return None
+            return ('exit', tok, sum(1 for c in cs if c[1] == 'task' and c[7] is not None))
+        want = collections.Counter(_exit_value(tok, cs) for tok, cs in by_inst.items() if any(c[1] == 'exit' and c[7] is not None for c in cs))
         if got != want:
-            add('C11', 'exit_results_conserved', {'got': sorted(got.elements())[:6], 'expected': sorted(want.elements())[:6]})
-        elif full and not numpy_in and sum(x[2] for x in got.elements()) != m:
+            add('C11', 'exit_results_conserved', {'got': sorted(got.elements(), key=str)[:6], 'expected': sorted(want.elements(), key=str)[:6]})
+        elif full and not numpy_in and not op.get('exit_none') and sum(x[2] for x in got.elements()) != m:
             add('C11', 'exit_results_account_for_every_task', {'sum': sum(x[2] for x in got.elements()), 'tasks': m})
 
     # ---- C16 ----
